@@ -48,6 +48,10 @@ def _simple(e):
     return False
 
 
+def _plain_callee(e):
+    return isinstance(e, ast.Name) or (isinstance(e, ast.Attribute) and _plain_callee(e.value))
+
+
 def negate(test):
     """A spelling of `not test` (logical negation in a boolean context)."""
     if isinstance(test, ast.UnaryOp) and isinstance(test.op, ast.Not):
@@ -160,8 +164,10 @@ def _u(n):
 
 def facts(func):
     """Spelling facts of one function: texts of tests, comparisons, continue-guards and returned expressions."""
-    tests, compares, conts, rets = [], [], [], []
+    tests, compares, conts, rets, simple = [], [], [], [], []
     for n in _own_nodes(func):
+        if isinstance(n, (ast.Expr, ast.Assign, ast.AugAssign, ast.AnnAssign)) and not (isinstance(n, ast.Expr) and isinstance(n.value, ast.Constant)):
+            simple.append(_u(n))
         if isinstance(n, (ast.If, ast.While, ast.IfExp)):
             tests.append(_u(n.test))
             if isinstance(n, ast.If) and not n.orelse and len(n.body) == 1 and isinstance(n.body[0], ast.Continue):
@@ -170,7 +176,7 @@ def facts(func):
             compares.append(_u(n))
         if isinstance(n, ast.Return) and n.value is not None:
             rets.append(_u(n.value))
-    return {'tests': sorted(tests), 'compares': sorted(compares), 'continues': sorted(conts), 'returns': sorted(rets)}
+    return {'tests': sorted(tests), 'compares': sorted(compares), 'continues': sorted(conts), 'returns': sorted(rets), 'simple': sorted(simple)}
 
 
 def build_reference(repo):
@@ -182,8 +188,8 @@ class _Guided:
         # a spelling is rewritten only while it occurs more often than in the reference function (surplus) and the
         # equivalent spelling occurs less often (deficit); counters are updated after every rewrite
         from collections import Counter
-        self.ref = {k: Counter(ref[k]) for k in ('tests', 'compares', 'continues', 'returns')}
-        self.cur = {k: Counter(cur[k]) for k in ('tests', 'compares', 'continues', 'returns')}
+        self.ref = {k: Counter(ref.get(k, [])) for k in ('tests', 'compares', 'continues', 'returns', 'simple')}
+        self.cur = {k: Counter(cur.get(k, [])) for k in ('tests', 'compares', 'continues', 'returns', 'simple')}
         self.count = 0
 
     def surplus(self, kind, text):
@@ -231,6 +237,22 @@ class _Guided:
                     out.append(ast.copy_location(ast.Return(value=val), st))
                     i += 2
                     continue
+            # t = E; f(t, ...)  /  x = f(t, ...)   ->   f(E, ...)      (t a temporary whose single use is the first argument of a call whose callee
+            # expression is a chain of plain names, so E is still the first thing evaluated)
+            if isinstance(st, ast.Assign) and len(st.targets) == 1 and isinstance(st.targets[0], ast.Name) and i + 1 < len(stmts) \
+                    and self.loads.get(st.targets[0].id) == 1 and self.stores.get(st.targets[0].id) == 1 and isinstance(stmts[i + 1], (ast.Expr, ast.Assign)) \
+                    and isinstance(stmts[i + 1].value, ast.Call) and stmts[i + 1].value.args and isinstance(stmts[i + 1].value.args[0], ast.Name) \
+                    and stmts[i + 1].value.args[0].id == st.targets[0].id and _plain_callee(stmts[i + 1].value.func) and self.surplus('simple', _u(st)):
+                nxt = stmts[i + 1]
+                old_arg = nxt.value.args[0]
+                nxt.value.args[0] = st.value
+                if self.deficit('simple', _u(nxt)):
+                    self.cur['simple'][_u(st)] -= 1
+                    self.cur['simple'][_u(nxt)] += 1
+                    self.count += 1
+                    i += 1
+                    continue
+                nxt.value.args[0] = old_arg
             # t = E; if t: ...   ->  if E: ...      (t a temporary with this single use)
             if isinstance(st, ast.Assign) and len(st.targets) == 1 and isinstance(st.targets[0], ast.Name) and i + 1 < len(stmts) and isinstance(stmts[i + 1], ast.If) \
                     and isinstance(stmts[i + 1].test, ast.Name) and stmts[i + 1].test.id == st.targets[0].id and self.loads.get(st.targets[0].id) == 1 and self.stores.get(st.targets[0].id) == 1:
@@ -346,7 +368,7 @@ def phase_c(repo):
             continue
         cur = facts(func)
         r = ref[key]
-        if cur['tests'] == r['tests'] and cur['compares'] == r['compares'] and cur['returns'] == r['returns']:
+        if cur['tests'] == r['tests'] and cur['compares'] == r['compares'] and cur['returns'] == r['returns'] and cur['simple'] == r.get('simple', cur['simple']):
             continue
         n = _Guided(r, cur).run(func)
         if n:
